@@ -36,21 +36,29 @@ type c11Arg struct {
 	Name string
 	Nil  bool // nil *ArgumentConfig
 	T    c11Ref
+	Desc string
+	Def  *c10Val // default value (C10)
 }
 type c11Field struct {
 	Name string
 	Nil  bool // nil *Field
 	T    c11Ref
 	Args []c11Arg
+	Desc string
+	Dep  string // deprecation reason (C10)
 }
 type c11IField struct {
 	Name string
 	Nil  bool
 	T    c11Ref
+	Desc string
+	Def  *c10Val
 }
 type c11EnumVal struct {
 	Name string
 	Nil  bool
+	Desc string
+	Dep  string
 }
 
 const (
@@ -74,6 +82,7 @@ type c11Def struct {
 	ID      int
 	Kind    int
 	Name    string
+	Desc    string
 	Thunk   bool // fields (object, interface, input object) supplied as a thunk
 	Fields  []c11Field
 	IFields []c11IField
@@ -96,6 +105,8 @@ type c11Cfg struct {
 	Query, Mutation, Subscription int   // -1 = nil
 	Types                         []int // -1 = nil
 	Dirs                          []int
+	XDirs                         []c10Dir // custom directives with arguments (C10)
+	NoSpecDirs                    bool     // XDirs replace the specified directives instead of extending them
 }
 
 // ids of the library's own types
@@ -139,6 +150,8 @@ func (c *c11Cfg) clone() *c11Cfg {
 	n := &c11Cfg{Query: c.Query, Mutation: c.Mutation, Subscription: c.Subscription}
 	n.Types = append([]int{}, c.Types...)
 	n.Dirs = append([]int{}, c.Dirs...)
+	n.XDirs = append([]c10Dir{}, c.XDirs...)
+	n.NoSpecDirs = c.NoSpecDirs
 	for _, d := range c.Defs {
 		e := *d
 		e.Fields = nil
@@ -224,14 +237,18 @@ func (w *c11World) fields(d *c11Def) graphql.Fields {
 			fs[f.Name] = nil
 			continue
 		}
-		fld := &graphql.Field{Type: w.ref(f.T)}
+		fld := &graphql.Field{Type: w.ref(f.T), Description: f.Desc, DeprecationReason: f.Dep}
 		if len(f.Args) > 0 {
 			fld.Args = graphql.FieldConfigArgument{}
 			for _, a := range f.Args {
 				if a.Nil {
 					fld.Args[a.Name] = nil
 				} else {
-					fld.Args[a.Name] = &graphql.ArgumentConfig{Type: w.ref(a.T)}
+					ac := &graphql.ArgumentConfig{Type: w.ref(a.T), Description: a.Desc}
+					if a.Def != nil {
+						ac.DefaultValue = a.Def.toGo()
+					}
+					fld.Args[a.Name] = ac
 				}
 			}
 		}
@@ -244,7 +261,7 @@ func (w *c11World) build(d *c11Def) {
 	var t graphql.Type
 	switch d.Kind {
 	case c11Scalar:
-		c := graphql.ScalarConfig{Name: d.Name}
+		c := graphql.ScalarConfig{Name: d.Name, Description: d.Desc}
 		if d.Serialize {
 			c.Serialize = func(v interface{}) interface{} { return v }
 		}
@@ -272,13 +289,13 @@ func (w *c11World) build(d *c11Def) {
 			fields = w.fields(d)
 		}
 		if d.Kind == c11Interface {
-			c := graphql.InterfaceConfig{Name: d.Name, Fields: fields}
+			c := graphql.InterfaceConfig{Name: d.Name, Fields: fields, Description: d.Desc}
 			if d.ResolveType {
 				c.ResolveType = func(p graphql.ResolveTypeParams) *graphql.Object { return nil }
 			}
 			t = graphql.NewInterface(c)
 		} else {
-			c := graphql.ObjectConfig{Name: d.Name, Fields: fields}
+			c := graphql.ObjectConfig{Name: d.Name, Fields: fields, Description: d.Desc}
 			if d.IsTypeOf {
 				c.IsTypeOf = func(p graphql.IsTypeOfParams) bool { return true }
 			}
@@ -309,7 +326,7 @@ func (w *c11World) build(d *c11Def) {
 			t = graphql.NewObject(c)
 		}
 	case c11Union:
-		c := graphql.UnionConfig{Name: d.Name}
+		c := graphql.UnionConfig{Name: d.Name, Description: d.Desc}
 		if d.ResolveType {
 			c.ResolveType = func(p graphql.ResolveTypeParams) *graphql.Object { return nil }
 		}
@@ -344,10 +361,10 @@ func (w *c11World) build(d *c11Def) {
 			if v.Nil {
 				vs[v.Name] = nil
 			} else {
-				vs[v.Name] = &graphql.EnumValueConfig{Value: i + 1}
+				vs[v.Name] = &graphql.EnumValueConfig{Value: i + 1, Description: v.Desc, DeprecationReason: v.Dep}
 			}
 		}
-		t = graphql.NewEnum(graphql.EnumConfig{Name: d.Name, Values: vs})
+		t = graphql.NewEnum(graphql.EnumConfig{Name: d.Name, Values: vs, Description: d.Desc})
 	case c11Input:
 		var ids []int
 		for _, f := range d.IFields {
@@ -359,7 +376,11 @@ func (w *c11World) build(d *c11Def) {
 				if f.Nil {
 					m[f.Name] = nil
 				} else {
-					m[f.Name] = &graphql.InputObjectFieldConfig{Type: w.ref(f.T)}
+					fc := &graphql.InputObjectFieldConfig{Type: w.ref(f.T), Description: f.Desc}
+					if f.Def != nil {
+						fc.DefaultValue = f.Def.toGo()
+					}
+					m[f.Name] = fc
 				}
 			}
 			return m
@@ -371,7 +392,7 @@ func (w *c11World) build(d *c11Def) {
 		} else {
 			fields = mk()
 		}
-		t = graphql.NewInputObject(graphql.InputObjectConfig{Name: d.Name, Fields: fields})
+		t = graphql.NewInputObject(graphql.InputObjectConfig{Name: d.Name, Fields: fields, Description: d.Desc})
 	}
 	w.types[d.ID] = t
 	w.ids[t] = d.ID
@@ -392,6 +413,14 @@ func (w *c11World) schemaConfig(extra []int) graphql.SchemaConfig {
 			sc.Types = append(sc.Types, nil)
 		} else {
 			sc.Types = append(sc.Types, w.types[id])
+		}
+	}
+	if len(c.XDirs) > 0 {
+		if !c.NoSpecDirs {
+			sc.Directives = append(sc.Directives, graphql.SpecifiedDirectives...)
+		}
+		for _, xd := range c.XDirs {
+			sc.Directives = append(sc.Directives, w.directive(xd))
 		}
 	}
 	for _, k := range c.Dirs {
